@@ -14,6 +14,7 @@ import (
 	"verif/mc/gen/susp"
 	"verif/mc/gjs"
 	"verif/mc/native/allocx"
+	"verif/mc/native/stripx"
 )
 
 func init() {
@@ -123,6 +124,7 @@ func c16(tier string) int {
 	env.CheckAll([]diffrun.Program{minx.Program(thorough)}, []diffrun.Variant{diffrun.Plain, diffrun.Minified})
 	// layer 1: corpus-wide differential, the plain build is the reference for the minified one
 	corp := append(corpus(thorough), generic.Program(), susp.Programs()[0], susp.Programs()[5])
+	corp = append(corp, generic.SmallPrograms()...)
 	env.CheckAllAgainstVariant(corp, diffrun.Plain, []diffrun.Variant{diffrun.Minified})
 	// layer 3a: the allocator, directly
 	maxLen := 7
@@ -140,6 +142,7 @@ func c16(tier string) int {
 	// layer 3b: token sequences of the package code, plain vs minified, through the reference tokenizer
 	tokProgs := []diffrun.Program{minx.Program(false), generic.Program(), corp[0], corp[8], corp[len(corp)/2]}
 	tokens, tokPrograms := 0, 0
+	adjacencies := map[[2]byte]bool{}
 	for _, p := range tokProgs {
 		dir, err := env.WriteProgram(p)
 		if err != nil {
@@ -154,6 +157,7 @@ func c16(tier string) int {
 		pj, _ := os.ReadFile(filepath.Join(dir, "tp.js"))
 		mj, _ := os.ReadFile(filepath.Join(dir, "tm.js"))
 		os.RemoveAll(dir)
+		stripx.Adjacencies([]byte(pkgSection(string(pj))), adjacencies)
 		ta, e1 := jsTokens(pkgSection(string(pj)))
 		tb, e2 := jsTokens(pkgSection(string(mj)))
 		tokPrograms++
@@ -192,8 +196,25 @@ func c16(tier string) int {
 			env.Rep.Violation(id, fmt.Sprintf("token sequences of the plain and the minified package code differ at token %d: plain %v minified %v", diffAt, ta[lo:hiA], tb[lo:hiB]), nil)
 		}
 	}
+	// layer 3c: the whitespace / comment remover itself on every short token sequence whose adjacencies occur in real output
+	maxLenStrip := 4
+	if thorough {
+		maxLenStrip = 5
+	}
+	sr := stripx.Run(maxLenStrip, 3, adjacencies)
+	seenStrip := map[string]int{}
+	for _, v := range sr.Violations {
+		id := v
+		if i := indexByte(v, ' '); i > 0 {
+			id = v[:i]
+		}
+		seenStrip[id]++
+		if seenStrip[id] <= 3 {
+			env.Rep.Violation(id, v, map[string]string{"case.txt": v + "\n"})
+		}
+	}
 	return finishDiff(env, "C16", tier, start,
-		"(1) corpus-wide differential: every corpus program built plain and minified, run, compared case by case; (2) targeted naming program vs native Go: 30 / 710 (thorough: 18300) locals in one function plus closures, 760 package-level variables / functions / types, 85 JavaScript reserved words, globals and runtime-looking names in every identifier position (local, parameter, result, field, method, label, package-level), shadowing chains captured by closures, adjacent sign tokens in every nesting, strings containing comment and quote sequences; (3a) direct exploration of the identifier allocator on real function contexts: all request sequences up to length 5 (thorough 6) over {local, package-level, open child scope} x 4 scopes, minified and plain, invariant: no two visible names coincide, none is reserved; long runs across the 26 / 702 / 18278 name boundaries; (3b) the token sequence (reference tokenizer, identifiers abstracted, strings and numbers byte-exact) of the package code of plain vs minified builds must be identical",
+		"(1) corpus-wide differential: every corpus program built plain and minified, run, compared case by case; (2) targeted naming program vs native Go: 30 / 710 (thorough: 18300) locals in one function plus closures, 760 package-level variables / functions / types, 85 JavaScript reserved words, globals and runtime-looking names in every identifier position (local, parameter, result, field, method, label, package-level), shadowing chains captured by closures, adjacent sign tokens in every nesting, strings containing comment and quote sequences; (3a) direct exploration of the identifier allocator on real function contexts: all request sequences up to length 5 (thorough 6) over {local, package-level, open child scope} x 4 scopes, minified and plain, invariant: no two visible names coincide, none is reserved; long runs across the 26 / 702 / 18278 name boundaries; (3c) the whitespace/comment remover on every sequence of <= 3 tokens from a 67-token alphabet (identifiers, keywords, numbers, 13 string literals with escapes / comment look-alikes / a trailing escaped backslash, 33 punctuators, a real position hint) x 7 separators (blank, newline, tab, mixed, comments), and <= 4 (thorough 5) tokens from a 17-token alphabet: with hints taken out the output must tokenize like the input, strings byte-exact, hints between the same tokens; only sequences whose adjacencies (last byte class of a token, first byte class of the next) occur, separated by white space, in the plain package code of the five token programs are in the domain; (3b) the token sequence (reference tokenizer, identifiers abstracted, strings and numbers byte-exact) of the package code of plain vs minified builds must be identical",
 		[]string{"reference for the corpus = the plain build; for the naming program = native Go", "the prelude (minified by esbuild) is excluded from the token comparison"},
-		map[string]any{"allocator_states": ar.States, "allocator_transitions": ar.Transitions, "allocator_long_runs": ar.LongRuns, "token_programs": tokPrograms, "tokens_compared": tokens})
+		map[string]any{"allocator_states": ar.States, "allocator_transitions": ar.Transitions, "allocator_long_runs": ar.LongRuns, "token_programs": tokPrograms, "tokens_compared": tokens, "stripper_sequences": sr.Sequences, "stripper_sequences_outside_js": sr.Skipped, "adjacency_classes": len(adjacencies)})
 }
